@@ -851,6 +851,26 @@ def _ordered_dict(ip, *a, **k):
   return dict(*a, **k)
 
 
+@model("collections.namedtuple")
+def _namedtuple(ip, typename, field_names, **k):
+  """collections.namedtuple: a constructor of records with the given field names (attribute access; positional and
+  keyword construction; no tuple protocol beyond that)."""
+  fields = field_names.replace(",", " ").split() if isinstance(field_names, str) else [f for f in field_names]
+  cls = ExtClass(typename)
+
+  def make(ip_, *a, **kw):
+    if len(a) + len(kw) != len(fields) or len(a) > len(fields):
+      raise PyRaise("TypeError", ("%s() takes %d fields" % (typename, len(fields)),))
+    attrs = dict(zip(fields, a))
+    for n, v in kw.items():
+      if n not in fields or n in attrs:
+        raise PyRaise("TypeError", ("%s() got an unexpected field %r" % (typename, n),))
+      attrs[n] = v
+    attrs["_fields"] = tuple(fields)
+    return Obj(cls, attrs)
+  return Builtin(typename, make)
+
+
 @model("networkx.topological_sort")
 def _nx_topo(ip, graph):
   # contract of networkx (K): nodes in an order compatible with the edges; the stub graph knows it
